@@ -477,6 +477,27 @@ theorem C01_no_stranded_step (cfg : Cfg) (h1 : OneTimeout cfg) (as : List Act) (
     PendingAt (runActs cfg {} as) w :=
   (token_inv h1 as {} hf ⟨HistInv.init cfg, RelayInv.init, fun i j x y _ hx => by simp at hx⟩ TokInv.init).2.pending rid w hw hl
 
+/-- C01: **the system is not at rest while a run waits at a step.** In every reachable state, for a run persisted Initiated or
+Running: its announcement is still in the outbox (the relay has work), or every step-consumer process of its status that handles
+the event (its shard) and is parked at `Recv` is ENABLED - it has that event, or an earlier one of its topic, to receive. (A
+process in its error back-off, in the lag wait or waiting for its role is on a timer or at the role scheduler, which release it.) -/
+theorem C01_waiting_run_keeps_consumer_enabled (cfg : Cfg) (h1 : OneTimeout cfg) (as : List Act) (hf : ∀ a ∈ as, FreshAct2 a)
+    (rid : RunId) (w : Rec) (hw : (runActs cfg {} as).cur rid = some w) (hl : w.runState = 1 ∨ w.runState = 2) :
+    (∃ o ∈ (runActs cfg {} as).outbox, o.ev = Routing.route w) ∨
+    (∃ i e, (runActs cfg {} as).log[i]? = some e ∧ core e = Routing.route w ∧
+      ∀ k n, filteredOut (.step w.status k n) i e = false → (runActs cfg {} as).pstate (.step w.status k n) = .atRecv →
+        (runActs cfg {} as).enabled (.step w.status k n) = true) := by
+  rcases C01_no_stranded_step cfg h1 as hf rid w hw hl with ho | ⟨i, e, hi, hc, hk⟩
+  · exact Or.inl ho
+  · exact Or.inr ⟨i, e, hi, hc, fun k n hfo hp =>
+      enabled_of_pending _ _ i e hp hi (live_route_subscribed hl hc k n) (hk k n hfo)⟩
+
+/-- the executable form of the token invariant (evaluated by the model driver on co-simulated histories): in every reachable
+state within the hypotheses `tokOK` answers true -/
+theorem C01_tokOK (cfg : Cfg) (h1 : OneTimeout cfg) (as : List Act) (hf : ∀ a ∈ as, FreshAct2 a) :
+    tokOK (runActs cfg {} as) = true :=
+  tokOK_of (token_inv h1 as {} hf ⟨HistInv.init cfg, RelayInv.init, fun i j x y _ hx => by simp at hx⟩ TokInv.init).2
+
 /-- C15: **no accepted deletion request is stranded**: in every reachable state a run persisted RequestedDataDeleted has the
 announcement of exactly that record in the outbox, or published at an index the delete consumer has not passed (same
 hypotheses; the custom delete function may fail any number of times). -/
@@ -490,5 +511,32 @@ consumer handled it the run is Completed and nothing is required any more -/
 theorem nonvacuous_token :
     ((runActs cfgW {} [.trigger 0 1 5 {}, .step .outbox {}]).outbox.length, (runActs cfgW {} [.trigger 0 1 5 {}, .step .outbox {}]).log.length,
       (runActs cfgW {} [.trigger 0 1 5 {}, .step .outbox {}]).cursor sp) = (0, 1, 0) := by decide +kernel
+
+/-- why `NoSkip` is needed: a step function that answers with the skip value 0 consumes its event and leaves the run Initiated
+with nothing pending (by design: "skip" means "nothing to do for this event") -/
+def asSkip : List Act := [.trigger 0 1 5 {}, .step .outbox {}, .step sp {}, .step sp { outcomes := [.ret 0 5] }]
+
+theorem skip_leaves_nothing_pending :
+    ∃ w, (runActs cfgW {} asSkip).cur 0 = some w ∧ (w.runState = 1 ∨ w.runState = 2) ∧ ¬ PendingAt (runActs cfgW {} asSkip) w := by
+  have hout : (runActs cfgW {} asSkip).outbox = [] := by decide +kernel
+  have hlen : (runActs cfgW {} asSkip).log.length = 1 := by decide +kernel
+  have hcur : (runActs cfgW {} asSkip).cursor sp = 1 := by decide +kernel
+  have hhead : ((runActs cfgW {} asSkip).cur 0).map (fun w => (w.runState, w.status)) = some (1, 1) := by decide +kernel
+  cases hw : (runActs cfgW {} asSkip).cur 0 with
+  | none => rw [hw] at hhead; cases hhead
+  | some w =>
+    rw [hw] at hhead
+    simp only [Option.map_some, Option.some.injEq, Prod.mk.injEq] at hhead
+    refine ⟨w, rfl, Or.inl hhead.1, ?_⟩
+    rintro (⟨o, ho, _⟩ | ⟨i, e, hi, _, hk⟩)
+    · rw [hout] at ho; cases ho
+    · have hi0 : i < 1 := by rw [← hlen]; exact (List.getElem?_eq_some_iff.mp hi).1
+      have h0 : i = 0 := by omega
+      subst h0
+      have := hk 0 0 (by simp [filteredOut, Routing.shardOut, Gen.G.shardActive])
+      rw [hhead.2] at this
+      have hsp : (runActs cfgW {} asSkip).cursor (Proc.step 1 0 0) = 1 := hcur
+      rw [hsp] at this
+      omega
 
 end WorkflowModel.History
